@@ -62,7 +62,7 @@ func VerifC23() {
 	// the edit message
 	nv := types.Validator{Address: w.addrs[0], PublicKey: w.pks[0], Status: sdk.Staked, ServiceURL: "https://edited:443",
 		Chains: []string{nwChains[1]}, StakedTokens: sdk.ZeroInt()}
-	nv.OutputAddress = []sdk.Address{nil, w.out, otherOut}[v.Choice(3)]
+	nv.OutputAddress = []sdk.Address{nil, w.out, otherOut, w.addrs[2]}[v.Choice(4)] // (a stranger may name itself)
 	nv.RewardDelegators = []map[string]uint32{nil, delA, delB}[v.Choice(3)]
 	amount := v.BigIn("0", nwMaxTokens+"0")
 	signerIdx := v.Choice(3)
